@@ -110,8 +110,8 @@ def execute(case):
                     iface.py_set_dt(case.get("iface_dt", dt))
                 else:
                     py_simulate_model(pg, Model=M, return_dataframe=False, **kwp)
-            except (TypeError, RuntimeError):
-                pass
+            except Exception:
+                pass        # whatever the prelude run did or raised, only its after-effects on the traced run matter here
         R_.py_seed_random(case["bseed"])
     ks = case.get("script") or []
     R_.py_verif_script(script_values(ks))
